@@ -43,8 +43,18 @@ def chain(node):
 
 
 def accesses(fn, is_lexer_obj):
-    """[(field, 'r'|'w', lineno)] for attribute accesses on objects that denote the lexer per is_lexer_obj(chain prefix)"""
+    """[(field, 'r'|'w', lineno)] for attribute accesses on objects that denote the lexer per is_lexer_obj(chain prefix);
+    a local name assigned from such an object (`lexer = t.lexer`) denotes it too"""
     out = []
+    aliases = set()
+    for _ in range(3):
+        for n in ast.walk(fn):
+            if isinstance(n, ast.Assign) and len(n.targets) == 1 and isinstance(n.targets[0], ast.Name):
+                c = chain(n.value) if isinstance(n.value, (ast.Attribute, ast.Name)) else None
+                if c and (is_lexer_obj(c) or (len(c) == 1 and c[0] in aliases)):
+                    aliases.add(n.targets[0].id)
+    base = is_lexer_obj
+    is_lexer_obj = lambda pre: base(pre) or (len(pre) == 1 and pre[0] in aliases)
     aug_targets = set()
     for n in ast.walk(fn):
         if isinstance(n, ast.AugAssign) and isinstance(n.target, ast.Attribute):
@@ -135,9 +145,11 @@ def frames(prop, tier, seed):
         note(accesses(fn, lambda pre: pre == ['lexer'] or pre[-1:] == ['lexer']), 'ply.yacc:%s' % name)
         dyn += ['ply.yacc:%s uses %s' % (name, h) for h in uses_dynamic(fn) if 'getattr' not in h or name != 'parseopt_notrack' or True]
     for key, fi in src.funcs.items():
-        if key.startswith('smartquery.lexer:t_') or key.startswith('smartquery.rules:p_'):
-            arg = fi.params()[0][0] if fi.params()[0] else 't'
-            note(accesses(fi.node, lambda pre, arg=arg: pre == [arg, 'lexer']), key)
+        # the token rules, the grammar actions and whatever helpers they call in their modules: any parameter x used
+        # as x.lexer denotes a token / production carrying the lexer
+        if key.startswith('smartquery.lexer:') or key.startswith('smartquery.rules:'):
+            params = set(fi.params()[0]) or {'t'}
+            note(accesses(fi.node, lambda pre, params=params: len(pre) == 2 and pre[0] in params and pre[1] == 'lexer'), key)
     entry = find(lex_tree, *LEXER_ENTRY)
     initialised = init_first(entry, lambda pre: pre == ['self']) if entry is not None else set()
     # the package's own methods of the lexer object are not fields
